@@ -71,3 +71,169 @@ example :
   simp only [Function.iterate_succ, Function.iterate_zero, Function.comp, AdmmP.stepOpt,
     AdmmP.stepSimple, AdmmP.initOpt, AdmmP.initSimple, lincomb, smul_eq_mul]
   norm_num
+
+/-! ### Alternating dual updates -/
+
+theorem C11.adupdates_step_refines {K V W : Type} [Field K] [AddCommGroup V] [Module K V]
+    [AddCommGroup W] [Module K W] (P : AduP K V W) (so : AduOpt V W) (ss : AduSimple V W)
+    (h : so.x = ss.x ∧ so.duals = ss.duals) :
+    (P.stepOpt so).x = (P.stepSimple ss).x ∧ (P.stepOpt so).duals = (P.stepSimple ss).duals := by
+  have hin : ∀ j (a : AduOpt V W) (b : AduSimple V W), (a.x = b.x ∧ a.duals = b.duals) →
+      ((P.innerOpt j a).x = (P.innerSimple j b).x ∧
+       (P.innerOpt j a).duals = (P.innerSimple j b).duals) := by
+    intro j a b ⟨h1, h2⟩
+    simp only [AduP.innerOpt, AduP.innerSimple, h1, h2, and_self]
+  have h2 := forRange_sim P.innerOpt P.innerSimple (fun a b => a.x = b.x ∧ a.duals = b.duals) hin P.m
+    { so with x := P.primal so.duals so.x } { ss with x := P.primal ss.duals ss.x }
+    (by simp only [h.1, h.2, and_self])
+  unfold AduP.stepOpt AduP.stepSimple
+  split <;> exact h2
+
+theorem C11.adupdates_refines {K V W : Type} [Field K] [AddCommGroup V] [Module K V]
+    [AddCommGroup W] [Module K W] (P : AduP K V W) (x0 : V) (duals0 tmp0 : Nat → W) (n : Nat) :
+    (P.stepOpt^[n] ⟨x0, duals0, tmp0, []⟩).x = (P.stepSimple^[n] ⟨x0, duals0⟩).x ∧
+    (P.stepOpt^[n] ⟨x0, duals0, tmp0, []⟩).duals = (P.stepSimple^[n] ⟨x0, duals0⟩).duals :=
+  iterate_sim P.stepOpt P.stepSimple (fun a b => a.x = b.x ∧ a.duals = b.duals)
+    (fun so ss h => C11.adupdates_step_refines P so ss h) n _ _ ⟨rfl, rfl⟩
+
+/-! ### Double-proximal DC -/
+theorem C11.doubleprox_step_refines {K V W : Type} [Field K] [AddCommGroup V] [Module K V]
+    [AddCommGroup W] [Module K W] (P : DpdcP K V W) (s : V × W) :
+    P.stepOpt s = P.stepSimple s := by
+  have e1 : lincomb 1 s.1 P.gamma (P.Kadj s.2 - P.gradPhi s.1) =
+      s.1 + P.gamma • P.Kadj s.2 - P.gamma • P.gradPhi s.1 := by
+    simp only [lincomb]; module
+  have e2 : ∀ w : W, lincomb 1 s.2 P.mu w = s.2 + P.mu • w := by
+    intro w; simp only [lincomb]; module
+  simp only [DpdcP.stepOpt, DpdcP.stepSimple, e1, e2]
+
+theorem C11.doubleprox_refines {K V W : Type} [Field K] [AddCommGroup V] [Module K V]
+    [AddCommGroup W] [Module K W] (P : DpdcP K V W) (x0 : V) (y0 : W) (n : Nat) :
+    P.stepOpt^[n] (x0, y0) = P.stepSimple^[n] (x0, y0) := by
+  have : P.stepOpt = P.stepSimple := funext (C11.doubleprox_step_refines P)
+  rw [this]
+
+/-! ### Resumption -/
+section
+variable {K V W : Type} [Field K] [AddCommGroup V] [Module K V] [AddCommGroup W] [Module K W]
+set_option linter.unusedSectionVars false
+
+theorem C11.resume_landweber (P : LandweberP K V W) (x0 : V) (jW jW' : W) (jV jV' : V) (n m : Nat) :
+    (P.step^[m] (P.init (P.step^[n] (P.init x0 jW jV)).x jW' jV')).x =
+      (P.step^[n + m] (P.init x0 jW jV)).x :=
+  resume_generic P.step (·.x) (fun x => P.init x jW' jV')
+    (fun s t h => by simp only [LandweberP.step] at *; rw [h]) (fun _ => rfl) n m _
+
+theorem C11.resume_kaczmarz (P : KaczmarzP K V W) (x0 : V) (tR tR' : Nat → W) (jV jV' : V)
+    (log' : List V) (n m : Nat) :
+    (P.step^[m] ⟨(P.step^[n] ⟨x0, tR, jV, []⟩).x, tR', jV', log'⟩).x =
+      (P.step^[n + m] ⟨x0, tR, jV, []⟩).x :=
+  resume_generic P.step (·.x) (fun x => ⟨x, tR', jV', log'⟩)
+    (fun s t h => by
+      have := forRange_sim P.inner P.inner (fun a b => a.x = b.x)
+        (fun i a b hab => by simp only [KaczmarzP.inner] at *; rw [hab]) P.m s t h
+      unfold KaczmarzP.step
+      split <;> exact this) (fun _ => rfl) n m _
+
+theorem C11.resume_proximal_gradient (P : ProxGradP K V) (c : K) (hlam : ∀ k, P.lam k = c)
+    (x0 junk junk' : V) (n m : Nat) :
+    (P.step^[m] (P.init (P.step^[n] (P.init x0 junk)).x junk')).x =
+      (P.step^[n + m] (P.init x0 junk)).x :=
+  resume_generic P.step (·.x) (fun x => P.init x junk')
+    (fun s t h => by simp only [ProxGradP.step, hlam] at *; rw [h]) (fun _ => rfl) n m _
+
+theorem C11.resume_osmlem (P : OsmlemP V W) (x0 jV jV' : V) (tR tR' : Nat → W) (log' : List V)
+    (n m : Nat) :
+    (P.step^[m] ⟨(P.step^[n] ⟨x0, jV, tR, []⟩).x, jV', tR', log'⟩).x =
+      (P.step^[n + m] ⟨x0, jV, tR, []⟩).x :=
+  resume_generic P.step (·.x) (fun x => ⟨x, jV', tR', log'⟩)
+    (fun s t h => forRange_sim P.inner P.inner (fun a b => a.x = b.x)
+        (fun i a b hab => by simp only [OsmlemP.inner] at *; rw [hab]) P.nOps s t h)
+    (fun _ => rfl) n m _
+
+theorem C11.pdhg_resume (P : PdhgP K V W) (x0 : V) (xr0 : Option V) (y0 : Option W) (zeroW : W)
+    (jV jV' : V) (jW jW' : W) (n m : Nat) :
+    let s := P.step^[n] (P.init x0 xr0 y0 zeroW jV jW)
+    let r := P.step^[m] (P.init s.x (some s.xRelax) (some s.y) zeroW jV' jW')
+    let t := P.step^[n + m] (P.init x0 xr0 y0 zeroW jV jW)
+    r.x = t.x ∧ r.xRelax = t.xRelax ∧ r.y = t.y := by
+  intro s r t
+  have := resume_generic P.step (fun s => (s.x, s.xRelax, s.y))
+    (fun o => P.init o.1 (some o.2.1) (some o.2.2) zeroW jV' jW')
+    (fun a b h => by
+      simp only [Prod.mk.injEq] at h
+      obtain ⟨h1, h2, h3⟩ := h
+      simp only [PdhgP.step, h1, h2, h3]) (fun _ => rfl) n m (P.init x0 xr0 y0 zeroW jV jW)
+  simp only [Prod.mk.injEq] at this
+  exact this
+
+/-- Without passing `x_relax` and `y` back, resumption differs. -/
+theorem C11.pdhg_resume_needs_state :
+    let P : PdhgP ℚ ℚ ℚ := ⟨id, fun _ y => y, id, id, 1 / 2, 1, 1⟩
+    let s := P.step^[1] (P.init 1 none none 0 0 0)
+    (P.step^[1] (P.init s.x none none 0 0 0)).x ≠ (P.step^[1 + 1] (P.init 1 none none 0 0 0)).x := by
+  simp only [Function.iterate_succ, Function.iterate_zero, Function.comp, PdhgP.step, PdhgP.init,
+    lincomb, smul_eq_mul, Option.getD, id]
+  norm_num
+end
+
+theorem C11.resume_steepest_descent {K V : Type} [Field K] [LinearOrder K] [AddCommGroup V]
+    [Module K V] (P : SteepestP K V) (x0 g0 g0' : V) (n m : Nat)
+    (hok : (P.step^[n] ⟨x0, g0, false, false, []⟩).failed = false) :
+    (P.step^[m] ⟨(P.step^[n] ⟨x0, g0, false, false, []⟩).x, g0', false, false, []⟩).x =
+      (P.step^[n + m] ⟨x0, g0, false, false, []⟩).x := by
+  rw [Nat.add_comm, Function.iterate_add_apply]
+  have hinv := iterate_inv P.step (fun s => s.stopped = true → sdConverged P s.x)
+    (fun s h => sd_inv P s h) n ⟨x0, g0, false, false, []⟩ (by simp)
+  generalize P.step^[n] ⟨x0, g0, false, false, []⟩ = a at *
+  have := iterate_sim P.step P.step
+    (fun b a => b.x = a.x ∧ b.failed = a.failed ∧ (a.stopped = true → sdConverged P a.x) ∧
+      (b.stopped = true → sdConverged P b.x))
+    (fun b a ⟨h1, h2, h3, h4⟩ => by
+      refine ⟨?_, ?_, sd_inv P a h3, sd_inv P b h4⟩
+      all_goals
+        unfold SteepestP.step
+        unfold sdConverged at h3 h4
+        rcases hb : b.stopped <;> rcases ha : a.stopped <;> rcases hf : a.failed <;>
+          simp_all <;> (repeat' split) <;> simp_all)
+    m ⟨a.x, g0', false, false, []⟩ a ⟨rfl, by simp [hok], hinv, by simp⟩
+  exact this.1
+
+/-! ### Callbacks -/
+
+theorem C11.callback_once {S O : Type} (step : S → S) (obs : S → O) (n : Nat) (s : S) :
+    (runLog step obs n s []).1 = step^[n] s ∧ (runLog step obs n s []).2.length = n ∧
+    ∀ k, k < n → (runLog step obs n s []).2[k]? = some (obs (step^[k + 1] s)) := by
+  rw [runLog_eq]
+  refine ⟨rfl, by simp, ?_⟩
+  intro k hk
+  simp [hk]
+
+theorem C11.kaczmarz_callback_count {K V W : Type} [Field K] [AddCommGroup V] [Module K V]
+    [AddCommGroup W] (P : KaczmarzP K V W) (s : KaczmarzS V W) (n : Nat) :
+    (P.step^[n] s).log.length = s.log.length + n * (if P.cbInner then P.m else 1) := by
+  apply iterate_count P.step (fun s => s.log.length)
+  intro s
+  have := forRange_count P.inner (fun s => s.log.length) (if P.cbInner then 1 else 0)
+    (fun i s => by simp only [KaczmarzP.inner]; split <;> simp) P.m s
+  unfold KaczmarzP.step
+  split <;> simp_all
+
+theorem C11.adupdates_callback_count {K V W : Type} [Field K] [AddCommGroup V] [Module K V]
+    [AddCommGroup W] [Module K W] (P : AduP K V W) (s : AduOpt V W) (n : Nat) :
+    (P.stepOpt^[n] s).log.length = s.log.length + n * (if P.cbInner then P.m else 1) := by
+  apply iterate_count P.stepOpt (fun s => s.log.length)
+  intro s
+  have := forRange_count P.innerOpt (fun s => s.log.length) (if P.cbInner then 1 else 0)
+    (fun i s => by simp only [AduP.innerOpt]; split <;> simp) P.m
+    { s with x := P.primal s.duals s.x }
+  unfold AduP.stepOpt
+  split <;> simp_all
+
+theorem C11.osmlem_callback_count {V W : Type} (P : OsmlemP V W) (s : OsmlemS V W) (n : Nat) :
+    (P.step^[n] s).log.length = s.log.length + n * P.nOps := by
+  apply iterate_count P.step (fun s => s.log.length)
+  intro s
+  have := forRange_count P.inner (fun s => s.log.length) 1
+    (fun i s => by simp [OsmlemP.inner]) P.nOps s
+  simpa [OsmlemP.step] using this
